@@ -59,9 +59,8 @@ def viewTag (p : Bytes) : String :=
       -- which per-analyzer gates the frame passes: T/t = TCP analyzer (no fragment, valid flags), L/l = TLS (payload)
       ":" ++ (if gate .tcp v then "T" else "t") ++ (if gate .tls v then "L" else "l")
 
-def kfOf (p : Bytes) : List String :=
-  (if decide (KF.C15.ihlBelow5 .http p) then ["KF.C15.ihlBelow5"] else []) ++
-  (if decide (KF.C15.nullHeader .http p) then ["KF.C15.nullHeader"] else [])
+/-- no open known-finding class is left for C15 (IHL < 5 and the loopback header are fixed) -/
+def kfOf (_p : Bytes) : List String := []
 
 /-- `C15.frame <cfg> <frame> => ap=<0|1> tcp=<ep|-> http=<ep|-> tls=<ep|-|?>` -/
 def frame (impl : String) : P Verdict := do
